@@ -35,6 +35,14 @@ structure Switches where
 inductive Veto | position | priceUp | priceDown | notListed | suspended | cash | selfTrade
 deriving DecidableEq, Repr
 
+/-- `Position.closable` / `StockPosition.closable`: quantity minus the unfilled quantity of the open closing orders
+(CLOSE, CLOSE_TODAY) on this direction, minus — for stocks with T+1 switched on — everything bought today -/
+def posClosable (cfg : InsCfg) (tplusOn : Bool) (p : Pos) (openClosing : Int) : Int :=
+  if !cfg.isFuture && tplusOn then p.qty - openClosing - p.nonClosable else p.qty - openClosing
+
+/-- `Position.today_closable`: today's quantity minus the unfilled quantity of the open CLOSE_TODAY orders -/
+def posTodayClosable (p : Pos) (openCloseToday : Int) : Int := p.qty - p.oldQty - openCloseToday
+
 /-- `PositionValidator.validate_submission` -/
 def positionVeto (o : OrderIn) (closable todayClosable : Int) : Bool :=
   match o.effect with
